@@ -205,6 +205,10 @@ def pLine : P Verdict := do
   P.kw "savegap"; let _ ← P.nat
   P.kw "narch"; let _ ← P.nat
   P.kw "OUT"
+  match (← P.peek) with
+  | some "PANIC" => return .diff "the real code panicked during the run (not a verdict on races; see the case)"
+  | some "HANG" => return .diff "the run did not finish (watchdog)"
+  | _ => pure ()
   if kind == "trace" then
     P.kw "n"; let n ← P.nat
     P.kw "nblk"; let nblk ← P.nat
@@ -217,6 +221,8 @@ def pLine : P Verdict := do
     let run ← P.tok
     if !(run.startsWith "start=ok") then
       return .diff s!"run-failed {run}"
+    if n == 0 then  -- the skeleton theorem assumes at least one channel (PrepareRun rejects a source without channels)
+      return .bad "a traced run without per-channel events (n = 0)"
     return judgeTrace { n := n, nblk := nblk, ntrs := ntrs, narch := narch, src := srcCode src } tr
   else
     let t ← P.tok
